@@ -419,7 +419,7 @@ func (comp) Run(h *core.History, scratch string) *core.Result {
 
 		// observation of the state
 		ln := c.Len()
-		keys := c.Keys()
+		keys := res.OwnKeys("C20", i, "Keys()", c.Keys())
 		has := map[string]bool{}
 		peek := map[string][]byte{}
 		hasToks := make([]string, len(alpha))
